@@ -9,6 +9,7 @@ RULE = ('one record per (scalar, u) through curve25519 / curve25519_base / x2551
         'distinct = (entry point, scalar class, u class)')
 ASSUMPTIONS = ['Python-int Montgomery ladder pinned by RFC 7748 5.2 vectors']
 FLOORS = {'evaluations': 1000, 'distinct': 600}
+THOROUGH_ROUNDS = 8   # thorough tier: generator passes with derived seeds (runner.gen_rounds)
 P = 2 ** 255 - 19
 SMALL = [0, 1, 325606250916557431795983626356110631294008115727848805560023387167927233504,
          39382357235489614581723060781553021112529911719440698176882885853963445705823, P - 1, P, P + 1]
